@@ -90,6 +90,7 @@ handler is then finished (`pos_bitvec = 0`) or its cursor is at a cell (row `i +
 * the three tests of the loop body are the comparisons of the matrix rule: `left.dist.wrapping_add(1) == block.dist` ⇔
   diagonal + 1 = current (and `j ≥ 1`: never true against the sentinel), `block.pv & pos ≠ 0` ⇔ upper + 1 = current,
   `left.mv & pos ≠ 0` (`move_left_down_if_better`) ⇔ left + 1 = diagonal (and `j ≥ 1`).
+* so far it has drawn `stop − j + 2` items from the iterator: the states of columns `stop, …, j − 1` and nothing else.
 Every width `w`, pattern `1 ≤ m ≤ w`, equivalence, text, end position; `m < dmax`.  The distances of the model are
 unbounded naturals with truncated subtraction: the equalities show that no `-= 1` is executed on 0 and that
 `adjust_by_mask` never subtracts more than it has (`adjustByMask_spec`). -/
@@ -99,6 +100,8 @@ theorem handler_reads_true_cells (w : Nat) (eqv : Nat → Nat → Bool) (p t : L
     ∃ i j, i < p.length ∧ j ≤ stop ∧
       (Handler.after dmax p.length (fun k => (seqStates w eqv p dmax t).getD (stop + 1 - k) ⟨0#w, 0#w, 0⟩) n).pos =
         BitVec.twoPow w i ∧
+      (Handler.after dmax p.length (fun k => (seqStates w eqv p dmax t).getD (stop + 1 - k) ⟨0#w, 0#w, 0⟩) n).taken =
+        stop - j + 2 ∧
       (fun (h : Handler w) =>
         h.state.dist = cell (unitW eqv) p (t.take j) (i + 1) ∧
         (1 ≤ j → h.left.dist = cell (unitW eqv) p (t.take (j - 1)) i) ∧
